@@ -184,7 +184,9 @@ pub mod spec_server {
                             match rr_at(req, c) {
                                 None => scan_stop(Outcome::Formerr, opt, None),                   // malformed TSIG
                                 Some(rr) =>
-                                    if rr.class != class_any() || rr.ttl != 0 { scan_stop(Outcome::Formerr, opt, None) }
+                                    // RFC 8945 4.2: CLASS must be ANY and TTL must be 0 - the TTL FIELD as it is on the
+                                    // wire (`rr.ttl` is already normalised per RFC 2181 8, which maps 0x80000000.. to 0)
+                                    if rr.class != class_any() || u32_at(req, p.0 + 4) != 0 { scan_stop(Outcome::Formerr, opt, None) }
                                     else { scan_end(req, p.1, opt, Some(c)) },
                             }
                         }
